@@ -21,19 +21,19 @@ Warm(k) ==
 A2 == SetToSeq(Alpha2)
 A3 == SetToSeq(Alpha3)
 OneSeq == [b \in 1..256 |-> <<b - 1>>]
-TwoSeq == IF All2 THEN [j \in 1..65536 |-> <<(j - 1) \div 256, (j - 1) % 256>>]
-          ELSE [j \in 1..(Len(A2) * Len(A2)) |-> <<A2[((j - 1) \div Len(A2)) + 1], A2[((j - 1) % Len(A2)) + 1]>>]
+TwoAlpha == [j \in 1..(Len(A2) * Len(A2)) |-> <<A2[((j - 1) \div Len(A2)) + 1], A2[((j - 1) % Len(A2)) + 1]>>]
+TwoAll == [j \in 1..65536 |-> <<(j - 1) \div 256, (j - 1) % 256>>]
 ThreeSeq == [j \in 1..(Len(A3) * Len(A3) * Len(A3)) |->
                <<A3[((j - 1) \div (Len(A3) * Len(A3))) + 1], A3[(((j - 1) \div Len(A3)) % Len(A3)) + 1], A3[((j - 1) % Len(A3)) + 1]>>]
-Strings == << <<>> >> \o OneSeq \o TwoSeq \o ThreeSeq
-NStrings == Len(Strings)
-StringAt(i) == Strings[i]
+\* a fresh receiver sees every two-byte string when All2; the warm variant (between two warm payloads) keeps the alphabet
+StringsCold == << <<>> >> \o OneSeq \o (IF All2 THEN TwoAll ELSE TwoAlpha) \o ThreeSeq
+StringsWarm == << <<>> >> \o OneSeq \o TwoAlpha \o ThreeSeq
+BytesCase(k, s, warm) ==
+  [fam |-> "C09", kind |-> k, src |-> "bytes", items |-> IF warm THEN <<Warm(k), s, Warm(k)>> ELSE <<s>>, probes |-> TRUE, scribble |-> TRUE,
+   class |-> k \o "_bytes" \o ToString(Len(s)) \o (IF warm THEN "_warm" ELSE "")]
 BytesCases(ki) ==
   LET k == Kinds[ki] IN
-  [j \in 1..(2 * NStrings) |->
-     LET s == StringAt(((j - 1) \div 2) + 1)  warm == j % 2 = 0 IN
-     [fam |-> "C09", kind |-> k, src |-> "bytes", items |-> IF warm THEN <<Warm(k), s, Warm(k)>> ELSE <<s>>, probes |-> TRUE, scribble |-> TRUE,
-      class |-> k \o "_bytes" \o ToString(Len(s)) \o (IF warm THEN "_warm" ELSE "")]]
+  [j \in 1..Len(StringsCold) |-> BytesCase(k, StringsCold[j], FALSE)] \o [j \in 1..Len(StringsWarm) |-> BytesCase(k, StringsWarm[j], TRUE)]
 
 \* well-formed payloads of different forms; every ordered pair is decoded by one receiver
 Forms(k) ==
